@@ -9,7 +9,7 @@ from vf.core import Verdict, lib, maxdev, mk_basis
 from vf.ref import r3
 from vf.run import SubCheck
 
-from gbasis.integrals.moment import moment_integral
+from gbasis.integrals.moment import Moment, moment_integral
 from gbasis.integrals.overlap import overlap_integral
 
 RULE = ("Shards enumerate the 25 ordered (l_a,l_b) pairs 0..4; Hypothesis draws a basis of 2-3 generalized mixed-type "
@@ -17,7 +17,9 @@ RULE = ("Shards enumerate the 25 ordered (l_a,l_b) pairs 0..4; Hypothesis draws 
         "with repetition and in arbitrary sequence (thorough: a second sub-check sweeps all 125 triples per cell), an "
         "optional transformation matrix and a second origin.  Oracle: R1 three-factor integrals in list order, "
         "tolerance 1e-8*(<a|m^2|a><b|m^2|b>)^(1/4) (Cauchy-Schwarz scale, from the oracle, evaluated with |coefficients| so that it cannot cancel); order (0,0,0) = overlap; "
-        "moments about a second origin = binomial combination of the library's own lower moments.  Non-trivial: "
+        "moments about a second origin = binomial combination of the library's own lower moments; the shell blocks of the first two "
+        "shells (both orientations) element-wise at 1e-9 of the summed magnitudes of the terms of the element (oracle in conditioning "
+        "mode) + 1e-13 of the natural scale (the unchanged library stays below 2e-6 of that).  Non-trivial: "
         "l>=2 with an order>=2, or >=3 triples not in sorted order, or an off-centre origin.")
 ASSUMPTIONS = ["reference integrals from vf/ref R1/R3/R4"]
 TOL = 1e-8
@@ -97,6 +99,24 @@ def judge(case):
     if not d <= TOL:
         return v.fail(f"moment_integral deviates by {d:.3e} of the Cauchy-Schwarz scale at {at} "
                       f"(order {orders[at[2]].tolist()})")
+    # shell blocks in both orientations, element-wise on their own terms: 1e-9 of the summed magnitudes of the terms of an element
+    # (conditioning scale of the oracle's expansion) + 1e-13 of the natural scale - C07 states no tolerance, and elements far
+    # below the natural scale would otherwise never be looked at
+    Rc = [r3.ShellRef(dict(sd, type="cartesian")) for sd in shells[:2]]
+    Rca = r3.abs_shells(Rc)
+    cs = [np.abs(np.einsum("mcmck->mck", r3.moment_block(t, t, C, 2 * orders, normalised=False))) ** 0.5 for t in Rca]
+    for (i, j) in ((0, 1), (1, 0)):
+        blk = lib(Moment.construct_array_contraction, bas[i], bas[j], C, orders)
+        want = r3.moment_block(Rc[i], Rc[j], C, orders, normalised=False)
+        if blk.shape != want.shape:
+            return v.fail(f"Moment.construct_array_contraction shape {blk.shape}, expected {want.shape}")
+        cond = r3.condition(r3.moment_block, Rc[i], Rc[j], C, orders, normalised=False)
+        nat = cs[i][:, :, None, None, :] * cs[j][None, None, :, :, :]
+        d, at = maxdev(blk, want, 1e-9 * cond + 1e-13 * nat + 1e-300)
+        v.info["cond_dev"] = max(v.info.get("cond_dev", 0.0), d)
+        if not d <= 1.0:
+            return v.fail(f"Moment.construct_array_contraction(s{i},s{j}): element {at} = {want[at]!r} is off by {abs(blk[at] - want[at]):.3e}, "
+                          f"{d:.2e} x (1e-9 of the summed magnitudes of its terms + 1e-13 of the natural scale)")
     # (0,0,0) reproduces the overlap
     S = lib(overlap_integral, bas)
     M0 = lib(moment_integral, bas, C, np.array([[0, 0, 0]]))[:, :, 0]
